@@ -28,7 +28,7 @@ Ltac xstep :=
   match goal with
   | |- context [X86.run _ _ _ _ _ _ _ ?PR (S ?f) ?pc ?st] =>
     rewrite (run_S A s junk slot avx2 popcnt c PR f pc st _ eq_refl);
-    cbv beta iota zeta delta [X86.step val ea wr64 rg vr set_reg set_vr set_fl set_res m_disp m_base m_idx
+    cbv beta iota zeta delta [X86.step val ea wr64 wr64f rg vr set_reg set_vr set_fl set_res m_disp m_base m_idx
          gAX gBX gCX gDX gSI gDI gR8 gR9 gR10 gR11 gR12 gR13 gR14 gR15 v0 v1 v2 v3 v4 v5 v6 v7 fl res]
   end.
 
@@ -97,7 +97,7 @@ Proof.
   destruct (Z.eq_dec len 0) as [E0|N0].
   { (* empty *)
     exists 5%nat. xstep. rewrite holds_cmp_LT by (unfold two63; lia). replace (len <? 16) with true by lia. cbv iota.
-    xstep. xstep. cbn [holds zf]. rewrite Z.land_diag. replace (len =? 0) with true by lia. cbv iota.
+    xstep. xstep. cbn [holds zf logic_flags zflag]. rewrite Z.land_diag. replace (len =? 0) with true by lia. cbv iota.
     xstep. replace (0 + slot + 0 =? slot) with true by lia. cbv iota. rewrite store_m1. xstep.
     rewrite (nil_of_len0 E0). reflexivity. }
   destruct (Z_lt_le_dec ((16 + A + 0) mod 4096) 16) as [Pg|Pg].
@@ -118,26 +118,26 @@ Proof.
     pose proof (movmsk_range s) as Rs. fold n in Rs. pose proof (movmsk_range J) as RJ. rewrite LJ0 in RJ.
     destruct (Z.eq_dec (movmsk s) 0) as [Mz|Mnz].
     + exists 16%nat. xstep. rewrite holds_cmp_LT by (unfold two63; lia). replace (len <? 16) with true by lia. cbv iota.
-      xstep. xstep. cbn [holds zf]. rewrite Z.land_diag. replace (len =? 0) with false by lia. cbv iota.
+      xstep. xstep. cbn [holds zf logic_flags zflag]. rewrite Z.land_diag. replace (len =? 0) with false by lia. cbv iota.
       xstep. rewrite in64_true by (unfold two64; lia). cbv iota.
-      xstep. xstep. cbn [holds zf]. rewrite testw_page by lia. replace ((16 + A + 0) mod 4096 <? 16) with true by lia. cbv iota.
+      xstep. xstep. cbn [holds zf logic_flags zflag]. rewrite testw_page by lia. replace ((16 + A + 0) mod 4096 <? 16) with true by lia. cbv iota.
       xstep. rewrite (load_bytes A s junk 16 _ Hrd), Eb. cbv iota.
       xstep. xstep. rewrite (vlow_vput 16 _ _ LJ).
       xstep. xstep. xstep. xstep. rewrite (shift_mask J) by (try exact LJ0; lia). rewrite Mz. change (0 =? 0) with true. cbv iota.
-      xstep. cbn [holds zf]. cbv iota.
+      xstep. cbn [holds zf logic_flags zflag]. cbv iota.
       xstep. replace (0 + slot + 0 =? slot) with true by lia. cbv iota. rewrite store_m1. xstep.
       f_equal. f_equal. symmetry. apply movmsk_zero. exact Mz.
     + assert (Hbsf : bsf (movmsk s) = fh s) by (apply bsf_movmsk; [fold n; lia|exact Mnz]).
       pose proof (fh_range s) as Rfs. fold n in Rfs.
       assert (Hne : fh s <> -1) by (intros E; apply movmsk_zero in E; congruence).
       exists 16%nat. xstep. rewrite holds_cmp_LT by (unfold two63; lia). replace (len <? 16) with true by lia. cbv iota.
-      xstep. xstep. cbn [holds zf]. rewrite Z.land_diag. replace (len =? 0) with false by lia. cbv iota.
+      xstep. xstep. cbn [holds zf logic_flags zflag]. rewrite Z.land_diag. replace (len =? 0) with false by lia. cbv iota.
       xstep. rewrite in64_true by (unfold two64; lia). cbv iota.
-      xstep. xstep. cbn [holds zf]. rewrite testw_page by lia. replace ((16 + A + 0) mod 4096 <? 16) with true by lia. cbv iota.
+      xstep. xstep. cbn [holds zf logic_flags zflag]. rewrite testw_page by lia. replace ((16 + A + 0) mod 4096 <? 16) with true by lia. cbv iota.
       xstep. rewrite (load_bytes A s junk 16 _ Hrd), Eb. cbv iota.
       xstep. xstep. rewrite (vlow_vput 16 _ _ LJ).
       xstep. xstep. xstep. xstep. rewrite (shift_mask J) by (try exact LJ0; lia). replace (movmsk s =? 0) with false by lia. cbv iota. rewrite Hbsf.
-      xstep. cbn [holds zf]. cbv iota.
+      xstep. cbn [holds zf logic_flags zflag]. cbv iota.
       xstep. replace (0 + slot + 0 =? slot) with true by lia. cbv iota. xstep.
       f_equal. f_equal. unfold signed64, two63. replace (fh s <? 9223372036854775808) with true by lia. reflexivity.
   - (* load 16 bytes at s: s followed by 16 - len bytes of the same page *)
@@ -154,13 +154,13 @@ Proof.
     destruct (Z.eq_dec (movmsk (s ++ J)) 0) as [Mz|Mnz].
     + (* no high byte among the 16: none in s *)
       exists 13%nat. xstep. rewrite holds_cmp_LT by (unfold two63; lia). replace (len <? 16) with true by lia. cbv iota.
-      xstep. xstep. cbn [holds zf]. rewrite Z.land_diag. replace (len =? 0) with false by lia. cbv iota.
+      xstep. xstep. cbn [holds zf logic_flags zflag]. rewrite Z.land_diag. replace (len =? 0) with false by lia. cbv iota.
       xstep. rewrite in64_true by (unfold two64; lia). cbv iota.
-      xstep. xstep. cbn [holds zf]. rewrite testw_page by lia. replace ((16 + A + 0) mod 4096 <? 16) with false by lia. cbv iota.
+      xstep. xstep. cbn [holds zf logic_flags zflag]. rewrite testw_page by lia. replace ((16 + A + 0) mod 4096 <? 16) with false by lia. cbv iota.
       xstep. rewrite (load_bytes A s junk 16 _ Hrd), Eb. cbv iota.
       xstep. xstep. rewrite (vlow_vput 16 _ _ LJ).
       xstep. rewrite (movmsk_small16 _ LJ), Mz. change (0 =? 0) with true. cbv iota.
-      xstep. cbn [holds zf]. cbv iota.
+      xstep. cbn [holds zf logic_flags zflag]. cbv iota.
       xstep. replace (0 + slot + 0 =? slot) with true by lia. cbv iota. rewrite store_m1. xstep.
       f_equal. f_equal. symmetry. apply movmsk_zero. assert (0 <= 2 ^ Z.of_nat n) by (apply Z.pow_nonneg; lia). nia.
     + (* a high byte among the 16: in s iff its index is below len *)
@@ -171,13 +171,13 @@ Proof.
       assert (Hks : k = if fh s <? 0 then (if fh J <? 0 then -1 else Z.of_nat n + fh J) else fh s) by (unfold k; apply fh_app).
       pose proof (fh_range s) as Rfs. fold n in Rfs. pose proof (fh_range J) as RfJ.
       exists 15%nat. xstep. rewrite holds_cmp_LT by (unfold two63; lia). replace (len <? 16) with true by lia. cbv iota.
-      xstep. xstep. cbn [holds zf]. rewrite Z.land_diag. replace (len =? 0) with false by lia. cbv iota.
+      xstep. xstep. cbn [holds zf logic_flags zflag]. rewrite Z.land_diag. replace (len =? 0) with false by lia. cbv iota.
       xstep. rewrite in64_true by (unfold two64; lia). cbv iota.
-      xstep. xstep. cbn [holds zf]. rewrite testw_page by lia. replace ((16 + A + 0) mod 4096 <? 16) with false by lia. cbv iota.
+      xstep. xstep. cbn [holds zf logic_flags zflag]. rewrite testw_page by lia. replace ((16 + A + 0) mod 4096 <? 16) with false by lia. cbv iota.
       xstep. rewrite (load_bytes A s junk 16 _ Hrd), Eb. cbv iota.
       xstep. xstep. rewrite (vlow_vput 16 _ _ LJ).
       xstep. rewrite (movmsk_small16 _ LJ). replace (movmsk (s ++ J) =? 0) with false by lia. cbv iota. rewrite Hbsf.
-      xstep. cbn [holds zf]. cbv iota.
+      xstep. cbn [holds zf logic_flags zflag]. cbv iota.
       xstep. xstep. rewrite holds_cmp_AE. unfold two32.
       rewrite (Z.mod_small k) by lia. rewrite (Z.mod_small len) by lia.
       assert (Hcase : (fh s = -1 /\ len <= k) \/ (0 <= fh s /\ k = fh s /\ k < len)).
@@ -235,7 +235,7 @@ Proof.
   - exists 8%nat. unfold mk. xstep. xstep. replace (0 + ax + 0) with ax by lia. rewrite Hld. cbv iota.
     xstep. xstep. rewrite (vlow_vput 16 _ _ Hlc).
     xstep. rewrite (movmsk_small16 _ Hlc), Mz. change (0 =? 0) with true. cbv iota.
-    xstep. cbn [holds zf negb]. cbv iota.
+    xstep. cbn [holds zf negb option_map zflag]. cbv iota.
     xstep. replace (0 + slot + 0 =? slot) with true by lia. cbv iota. rewrite store_m1.
     xstep. rewrite (Cz Mz). reflexivity.
   - destruct (Cnz Mnz) as [Efh Rfh].
@@ -243,7 +243,7 @@ Proof.
     exists 10%nat. unfold mk. xstep. xstep. replace (0 + ax + 0) with ax by lia. rewrite Hld. cbv iota.
     xstep. xstep. rewrite (vlow_vput 16 _ _ Hlc).
     xstep. rewrite (movmsk_small16 _ Hlc). replace (movmsk ch =? 0) with false by lia. cbv iota. rewrite Hbsf.
-    xstep. cbn [holds zf negb]. cbv iota.
+    xstep. cbn [holds zf negb option_map zflag]. cbv iota.
     match goal with |- X86.run _ _ _ _ _ _ _ _ 4 37 ?st = _ =>
       pose proof (sse_success ax cx (fh ch) ax r9 r10 r11 r12 r13 r14 r15) as S4 end.
     unfold mk in S4. rewrite S4 by (unfold two63; lia). f_equal. f_equal. lia.
@@ -272,12 +272,12 @@ Proof.
       destruct (Z.eq_dec (movmsk ch) 0) as [Mz|Mnz].
       * specialize (Cz Mz). replace (16 * k + 16)%nat with (16 * S k)%nat in Cz by lia.
         destruct (IH (S k) ax cx 0 (di + 16) r9 r10 r11 r12 r13 r14 r15 (vput 16 (map2 Z.land (vput 16 ch x1) x0) x0) (vput 16 ch x1) x2 x3 x4 x5 x6 x7
-                  {| zf := true; cf := cf (cmp_flags di ax signed64); lt := lt (cmp_flags di ax signed64) |} Hl Eax) as [fu Hfu]; [lia|lia|exact Cz|lia|].
+                  noflags Hl Eax) as [fu Hfu]; [lia|lia|exact Cz|lia|].
         exists (S (S (S (S (S (S (S (S fu)))))))). unfold mk. xstep. xstep. rewrite holds_cmp_B. replace (di <? ax) with true by lia. cbv iota.
         xstep. replace (0 + di + 0) with di by lia. rewrite Hld. cbv iota.
         xstep. xstep. rewrite (vlow_vput 16 _ _ Hlc).
         xstep. rewrite (movmsk_small16 _ Hlc), Mz. change (0 =? 0) with true. cbv iota.
-        xstep. cbn [holds zf negb]. cbv iota.
+        xstep. cbn [holds zf negb option_map zflag]. cbv iota.
         xstep. change (16 mod two64) with 16. rewrite in64_true by (unfold two64; lia). cbv iota.
         unfold mk in Hfu. exact Hfu.
       * destruct (Cnz Mnz) as [Efh Rfh].
@@ -286,7 +286,7 @@ Proof.
         xstep. replace (0 + di + 0) with di by lia. rewrite Hld. cbv iota.
         xstep. xstep. rewrite (vlow_vput 16 _ _ Hlc).
         xstep. rewrite (movmsk_small16 _ Hlc). replace (movmsk ch =? 0) with false by lia. cbv iota. rewrite Hbsf.
-        xstep. cbn [holds zf negb]. cbv iota.
+        xstep. cbn [holds zf negb option_map zflag]. cbv iota.
         match goal with |- X86.run _ _ _ _ _ _ _ _ 4 37 ?st = _ =>
           pose proof (sse_success ax cx (fh ch) di r9 r10 r11 r12 r13 r14 r15) as S4 end.
         unfold mk in S4. rewrite S4 by (unfold two63; lia). f_equal. f_equal. lia.
@@ -371,7 +371,7 @@ Ltac avx2_chunk di data x2 x3 Hld L L2 L3 Mf Hx2 Hx3 :=
   xstep; change (map2 (fun x y => if x =? y then 255 else 0) r128 (y2of data)) with (y3of data);
     rewrite (vput_full 32 (y3of data) x3 L3 Hx3);
   xstep; rewrite Mf;
-  xstep; cbn [holds zf negb].
+  xstep; cbn [holds zf negb option_map zflag].
 
 (* the last, overlapping chunk [len-32, len) *)
 Lemma avx2_final ax cx dx di r9 r10 r11 r12 r13 r14 r15 x0 x2 x3 x5 x6 x7 f :
